@@ -80,6 +80,22 @@ theorem remove_shrinks (l : Lay) (ok : l.Ok) (t : Nat) (now : Int) (pre post : L
   simp only [Lay.eod, Lay.remove, hbs, removeType_split t pre post x hx hpre, dataOf_append]
   simp [dataOf, List.flatMap_cons]; omega
 
+/-- the file `Tdf.new` writes is such a start state: every history on a freshly created file stays
+    well-formed (C03) and compact (C09), and reopening it reproduces the object (C10) -/
+theorem histories_on_new_file (now : Int) (hnow : inI32 now = true) (ops : List Op)
+    (hops : OpsOk (C03.freshLay now) ops) :
+    let s := runOps (C03.freshLay now).state ops
+    s.disk.take 16 = SIG ∧ wfB s.disk = true ∧ compactB s.disk = true ∧ typesNodupB s.disk = true
+      ∧ openFile s.disk = some s := by
+  intro s
+  have ok := C03.fresh_ok now hnow
+  obtain ⟨h1, h2⟩ := run_sim _ ok ops hops
+  have hhdr := (C03.header_untouched _ ok ops hops).1
+  simp only [s, h1]
+  refine ⟨?_, wfB_image _ h2, compactB_image _ h2, typesNodupB_image _ h2, reopen_same _ h2⟩
+  simp only [Lay.state, Lay.image, List.append_assoc, hhdr]
+  simp [C03.freshLay, Header.enc, SIG]
+
 example : (C03.freshLay 1700000000).eod = 4096 := by decide
 
 end Tdf.C09
